@@ -430,6 +430,18 @@ impl Session {
         (ret, info)
     }
 
+    /// value bytes of an Indirection entry resolved through super version `hist_index`
+    fn resolve(&self, hist_index: usize, key: &[u8], value: &[u8]) -> i64 {
+        match catch_unwind(AssertUnwindSafe(|| {
+            lsm_tree::verif::resolve_indirection(self.index(), hist_index, key, value)
+        })) {
+            Ok(Ok(Some(v))) => self.conc.val_back(&v),
+            Ok(Ok(None)) => -5, // dangling pointer
+            Ok(Err(_)) => -2,
+            Err(_) => -3,
+        }
+    }
+
     fn entry_json(&self, key: &[u8], seqno: u64, vt: lsm_tree::ValueType, value: &[u8]) -> Value {
         let t = match vt {
             lsm_tree::ValueType::Value => "V",
@@ -451,7 +463,9 @@ impl Session {
         let mut mems: BTreeMap<u64, Value> = BTreeMap::new();
         let mut tbls: BTreeMap<u64, Value> = BTreeMap::new();
         let mut hist = vec![];
-        for sv in &d.history {
+        let is_blob = self.blob.is_some();
+        for (hi, sv) in d.history.iter().enumerate() {
+            let mut dangling: Vec<Value> = vec![];
             let mut all = vec![sv.active.clone()];
             all.extend(sv.sealed.iter().cloned());
             for m in all {
@@ -472,7 +486,25 @@ impl Session {
                     let mut ids = vec![];
                     for t in run {
                         ids.push(t.id());
-                        tbls.entry(t.id()).or_insert_with(|| self.table_json(t));
+                        tbls.entry(t.id()).or_insert_with(|| self.table_json(t, hi));
+                        if is_blob {
+                            // every pointer of every table must resolve in this very version
+                            if let Ok(items) = catch_unwind(AssertUnwindSafe(|| {
+                                t.iter().filter_map(Result::ok).collect::<Vec<_>>()
+                            })) {
+                                for e in items {
+                                    if e.key.value_type == lsm_tree::ValueType::Indirection
+                                        && self.resolve(hi, &e.key.user_key, &e.value) < 0
+                                    {
+                                        dangling.push(json!([
+                                            t.id(),
+                                            self.conc.key_back(&e.key.user_key, self.nkeys),
+                                            e.key.seqno
+                                        ]));
+                                    }
+                                }
+                            }
+                        }
                     }
                     runs.push(json!(ids));
                 }
@@ -484,6 +516,7 @@ impl Session {
                 "lv": lv,
                 "blobs": sv.blob_file_ids,
                 "gc": sv.gc_stats.iter().map(|(i,l,b,o)| json!([i,l,b,o])).collect::<Vec<_>>(),
+                "dangling": dangling,
             }));
         }
         let mut snaps = self.snaps.clone();
@@ -494,23 +527,57 @@ impl Session {
             "mems": mems.into_values().collect::<Vec<_>>(),
             "tbls": tbls.into_values().collect::<Vec<_>>(),
             "hist": hist, "hidden": d.hidden, "snaps": snaps,
+            "bfs": self.blob_files_json(),
         })
     }
 
-    fn table_json(&self, t: &lsm_tree::Table) -> Value {
+    fn blob_files_json(&self) -> Value {
+        if self.blob.is_none() {
+            return json!([]);
+        }
+        let files = lsm_tree::verif::dump_blob_files(self.index());
+        json!(files
+            .iter()
+            .map(|f| {
+                json!({
+                    "id": f.id, "n": f.item_count, "bytes": f.total_uncompressed_bytes,
+                    "cbytes": f.total_compressed_bytes, "deleted": f.is_deleted,
+                    "err": f.error.clone().unwrap_or_default(),
+                    "exists": self.dir.join("blobs").join(f.id.to_string()).exists(),
+                    "blobs": f.blobs.iter().map(|b| json!([
+                        self.conc.key_back(&b.key, self.nkeys), b.seqno, b.offset,
+                        b.uncompressed_len, b.on_disk_len
+                    ])).collect::<Vec<_>>(),
+                })
+            })
+            .collect::<Vec<_>>())
+    }
+
+    fn table_json(&self, t: &lsm_tree::Table, hist_index: usize) -> Value {
         let g = t.global_seqno();
         let mut es = vec![];
         let mut err = json!("");
+        let ptrs_cell = std::cell::RefCell::new(Vec::<Value>::new());
         let r = catch_unwind(AssertUnwindSafe(|| {
+            let mut ptrs = ptrs_cell.borrow_mut();
             let mut out = vec![];
             for item in t.iter() {
                 match item {
-                    Ok(e) => out.push(self.entry_json(
-                        &e.key.user_key,
-                        e.key.seqno.wrapping_sub(g),
-                        e.key.value_type,
-                        &e.value,
-                    )),
+                    Ok(e) => {
+                        let mut j = self.entry_json(
+                            &e.key.user_key,
+                            e.key.seqno.wrapping_sub(g),
+                            e.key.value_type,
+                            &e.value,
+                        );
+                        if e.key.value_type == lsm_tree::ValueType::Indirection {
+                            j["v"] = json!(self.resolve(hist_index, &e.key.user_key, &e.value));
+                            if let Some((bf, off, dsz, sz)) = lsm_tree::verif::decode_indirection(&e.value) {
+                                ptrs.push(json!([j["k"], e.key.seqno.wrapping_sub(g), bf, off, dsz, sz]));
+                            }
+                        }
+                        out.push(j);
+                    }
                     Err(e) => return (out, Some(format!("{e:?}"))),
                 }
             }
@@ -527,8 +594,12 @@ impl Session {
         }
         let (lo, hi) = lsm_tree::verif::table_seqnos(t);
         let kr = &t.metadata.key_range;
+        let links = lsm_tree::verif::table_blob_links(t)
+            .map(|v| v.iter().map(|(a, b, c, d)| json!([a, b, c, d])).collect::<Vec<_>>())
+            .unwrap_or_default();
+        let ptrs = ptrs_cell.into_inner();
         json!({
-            "id": t.id(), "g": g, "e": es, "err": err,
+            "id": t.id(), "g": g, "e": es, "err": err, "ptrs": ptrs, "links": links,
             "meta": {
                 "min": self.conc.key_back(kr.min(), self.nkeys),
                 "max": self.conc.key_back(kr.max(), self.nkeys),
@@ -647,6 +718,8 @@ impl Session {
                 "all": opt(self.t().get_highest_seqno()),
             },
             "tables": self.t().table_count(),
+            "blob_files": self.t().blob_file_count(),
+            "stale_blob_bytes": self.t().stale_blob_bytes(),
             "notes": notes,
         })
     }
